@@ -317,14 +317,6 @@ def propVerdict (bs : Bits) (pos : Nat) (layer : Layer) (fn : CoreFn) (av : List
 
 def namesOf (s : String) : List Nat := s.toList.map Char.toNat
 
-def rawCall (bs : Bits) (pos : Nat) (method : String) (av : List ArgVal) : Option Obs :=
-  match method, av with
-  | "TryUintBits", [.int n] =>
-    some ⟨if n < 0 then .err .other pos else (tryUintBits bs pos n.toNat).map .u, none⟩
-  | "TryBits", [.int n] =>
-    some ⟨if n < 0 then .err .other pos else (tryBits bs pos n.toNat).map fun b => .bits n.toNat (byteVals b), none⟩
-  | _, _ => none
-
 /-- the <hex> field: `.`-joined segments, each `<hexbytes>` or `<n>x<hexbytes>` (repeated n times) -/
 def appendN (acc : Array UInt8) (b : List UInt8) : Nat → Array UInt8
   | 0 => acc
@@ -377,12 +369,6 @@ def nxVerdict (bs : Bits) (p : Nat) (nx : Option String) : Option String :=
       if k ≠ want then some s!"PROPFAIL following read of {k} bits, {want} expected at position {p}"
       else if v ≠ ofBitsBE (slice bs p k) then some s!"PROPFAIL following read at position {p} returned {v}, the bits there are {ofBitsBE (slice bs p k)}"
       else none
-
-def posOfRes : Res Val → Nat
-  | .ok _ p => p
-  | .err _ p => p
-  | .ioerr _ p => p
-  | .panic _ p => p
 
 /-! ### `fn …`: the bit functions called directly (tie by correspondence + specification) -/
 
@@ -443,8 +429,205 @@ def stepFn (ws : List String) (obs : String) : String :=
     | _, _ => "BADOP fn"
   | _, _ => "BADOP fn"
 
+/-! ### `hist …`: read histories on one decoder
+
+  `hist [<shape>] <L> <hex> <step>;<step>;…` TAB `<obs>;<obs>;…`   (steps: harness/cmd/c02/hist.go)
+  Every step is (1) held to the property predicate on its own — the value is the mathematical value of
+  the bits at ITS position, whatever was read before (`stepProp`, independent of the model) — and
+  (2) compared with the model's threaded machine `runHistory` (= `stepObs` per step by
+  Props.C02 `read_history_stateless`). -/
+
+def parseReader : List String → Option Reader
+  | e :: m :: args =>
+    match parseArg e, args.mapM parseArg with
+    | some (.endian cur), some av => some ⟨cur, namesOf m, av⟩
+    | _, _ => none
+  | _ => none
+
+def parseChildKind (s : String) : Option ChildKind :=
+  match s.splitOn ":" with
+  | ["st"] => some .struct
+  | ["ar"] => some .array
+  | ["fr", n] => n.toNat?.map .framed
+  | ["li", n] => n.toNat?.map .limited
+  | ["ra", n] => n.toNat?.map .range
+  | ["sk", q] => q.toNat?.map .seekFn
+  | _ => none
+
+def parseStep (s : String) : Option Step :=
+  match words s with
+  | "r" :: p :: rest => do
+    let p ← p.toNat?
+    let rd ← parseReader rest
+    pure (.read p rd)
+  | "sr" :: p :: n :: rest => do
+    let p ← p.toNat?
+    let n ← n.toNat?
+    let rd ← parseReader rest
+    pure (.relRead p n rd)
+  | ["pk", p, n] => do
+    let p ← p.toNat?
+    let n ← n.toInt?
+    pure (.peek p n)
+  | ["pf", p, e, nb, ml, t] => do
+    let p ← p.toNat?
+    let nb ← nb.toNat?
+    let ml ← ml.toInt?
+    let t ← t.toNat?
+    match parseArg e with
+    | some (.endian cur) => if nb ≥ 1 ∧ nb ≤ 64 then some (.peekFind p cur nb ml t) else none
+    | _ => none
+  | ["bl", p] => p.toNat?.map .bitsLeft
+  | ["ps", p] => p.toNat?.map .getPos
+  | "ch" :: k :: p :: rest => do
+    let k ← parseChildKind k
+    let p ← p.toNat?
+    let rd ← parseReader rest
+    pure (.child k p rd)
+  | _ => none
+
+def showSObs : SObs → String
+  | .seekErr => "seekerr"
+  | .rangeErr => "rangeerr"
+  | .rd none => "notmodelled"
+  | .rd (some o) => showObs o
+  | .peek r => showRes (r.map .u)
+  | .find (.ok none p) => s!"pf:none {p}"
+  | .find (.ok (some (c, v)) p) => s!"pf:{c}:{v} {p}"
+  | .find r => showRes (r.map fun _ => Val.u 0)
+  | .num v p => s!"n:{v} {p}"
+  | .child none _ => "notmodelled"
+  | .child (some o) pp => s!"{showObs o} pp:{pp}"
+
+/-- `<reader obs> pp:<parent position>` -/
+def splitPP (obs : String) : Option (String × Nat) :=
+  let ws := words obs
+  match ws.getLast? with
+  | some l =>
+    match l.splitOn ":" with
+    | ["pp", q] => q.toNat?.map fun q => (" ".intercalate ws.dropLast, q)
+    | _ => none
+  | none => none
+
+def sobsEq (m : SObs) (impl : String) : Bool :=
+  match m with
+  | .rd (some o) =>
+    match parseObs impl with
+    | some i => obsEq o i
+    | none => false
+  | .child (some o) pp =>
+    match splitPP impl with
+    | some (body, q) => q == pp && (match parseObs body with
+      | some i => obsEq o i
+      | none => false)
+    | none => false
+  | m => showSObs m == impl
+
+/-- the property on ONE read, from the bits at its position (not from the model) -/
+def readProp (bs : Bits) (p : Nat) (rd : Reader) (impl : Obs) : Option String :=
+  let L := bs.length
+  match rd.args with
+  | [.int n] =>
+    if rd.method = kTryUintBits ∨ rd.method = kTryBits then
+      let isU := rd.method = kTryUintBits
+      if 0 ≤ n ∧ (n ≤ 64 ∨ !isU) ∧ (n = 0 ∨ p + n.toNat ≤ L) then
+        let sl := slice bs p n.toNat
+        let want : Res Val := .ok (if isU then .u (ofBitsBE sl) else .bits n.toNat (byteVals sl)) (p + n.toNat)
+        if resEq want impl.res then none else some s!"got {showRes impl.res}, the bits at {p} are {showRes want}"
+      else match impl.res with
+        | .ok _ _ => some "a value was returned for a read that cannot be satisfied"
+        | .panic w _ => some s!"run-time panic {w}"
+        | _ => none
+    else readNamed
+  | _ => readNamed
+where
+  readNamed : Option String :=
+    match parseName rd.method with
+    | none => none
+    | some (layer, fn, argExprs) =>
+      match argExprs.mapM (resolveArg rd.cur rd.args) with
+      | none => none
+      | some rav =>
+        match propVerdict bs p layer fn rav impl with
+        | .fail why => some why
+        | .known _ why => some why
+        | .holds => none
+
+def stepProp (bs : Bits) (st : Step) (impl : String) : Option String :=
+  let L := bs.length
+  if impl == "seekerr" || impl == "rangeerr" then none else
+  match st with
+  | .read p rd | .relRead p _ rd =>
+    match parseObs impl with
+    | some o => readProp bs p rd o
+    | none => some "unparsable observation"
+  | .peek p n =>
+    if 0 ≤ n ∧ n ≤ 64 ∧ (n = 0 ∨ p + n.toNat ≤ L) then
+      let want := s!"u:{ofBitsBE (slice bs p n.toNat)} {p}"
+      if impl == want then none else some s!"peek observed {impl}, the bits at {p} (position unchanged) are {want}"
+    else if impl.startsWith "u:" then some "a value was peeked where the read cannot be satisfied" else none
+  | .peekFind p _ _ _ target =>
+    match words impl with
+    | [o, q] =>
+      if q.toNat? != some p then some s!"position after TryPeekFind is {q}, was {p}"
+      else match o.splitOn ":" with
+        | ["pf", _, v] => if v.toNat? == some target then none else some s!"TryPeekFind returned {v}, searched for {target}"
+        | _ => none
+    | _ => some "unparsable observation"
+  | .bitsLeft p =>
+    if p ≤ L ∧ impl != s!"n:{L - p} {p}" then some s!"BitsLeft/Pos observed {impl} at position {p} of {L}" else none
+  | .getPos p =>
+    if p ≤ L ∧ impl != s!"n:{p} {p}" then some s!"Pos observed {impl} after a seek to {p}" else none
+  | .child k p rd =>
+    match splitPP impl with
+    | none => some "unparsable observation"
+    | some (body, _) =>
+      match parseObs body with
+      | none => some "unparsable observation"
+      | some o =>
+        let den := match k with
+          | .framed n | .limited n | .range n => bs.take (p + n)
+          | _ => bs
+        readProp den p rd o
+
+def zipIdx {α β} : Nat → List α → List β → List (Nat × α × β)
+  | i, a :: as, b :: bs => (i, a, b) :: zipIdx (i + 1) as bs
+  | _, _, _ => []
+
+def stepHist (bs : Bits) (stepTexts obsTexts : List String) : String :=
+  match stepTexts.mapM parseStep with
+  | none => "BADOP step"
+  | some steps =>
+    if steps.length ≠ obsTexts.length then "BADOP step/observation count" else
+    let model := runHistory bs 0 steps
+    if model.any (fun m => showSObs m == "notmodelled") then "BADOP not-modelled" else
+    let div := if (model.zip obsTexts).all (fun (m, i) => sobsEq m i) then ""
+      else " ;DIVERGE model=" ++ ";".intercalate (model.map showSObs)
+    let fails := (zipIdx 0 steps obsTexts).filterMap fun (i, st, impl) =>
+      (stepProp bs st impl).map fun why => s!"step {i} ({stepTexts.getD i ""}): {why}"
+    match fails with
+    | why :: _ => s!"PROPFAIL {why}{div}"
+    | [] => if div.isEmpty then "OK" else (div.drop 2).toString
+
 def stepC02 (op0 obs0 : String) : String :=
   if (words op0).head? == some "fn" then stepFn ((words op0).drop 1) obs0 else
+  if (words op0).head? == some "hist" then
+    -- hist [<shape>] <L> <hex> <steps>
+    let ws := (words op0).drop 1
+    let (shape, ws) : Option String × List String := match ws with
+      | w :: rest => if w.toNat?.isSome then (none, ws) else (some w, rest)
+      | [] => (none, [])
+    match ws with
+    | sL :: hex :: rest =>
+      match sL.toNat?, expandHex hex with
+      | some L, some bytes =>
+        let all := bytesToBits bytes
+        if L > all.length then "BADOP L-beyond-hex" else
+        if (match shape with | some sh => !shapeOk sh L | none => false) then "BADOP shape" else
+        stepHist (all.take L) ((" ".intercalate rest).splitOn ";") (obs0.splitOn ";")
+      | _, _ => "BADOP parse"
+    | _ => "BADOP op"
+  else
   -- optional shape word after `rd`
   let (op, shape) : String × Option String := match words op0 with
     | "rd" :: w :: rest => if w.toNat?.isSome then (op0, none) else (" ".intercalate ("rd" :: rest), some w)
@@ -464,7 +647,7 @@ def stepC02 (op0 obs0 : String) : String :=
         match nxVerdict bs (posOfRes impl.res) nx with
         | some v => v
         | none =>
-        match rawCall bs pos method av with
+        match rawCall bs pos (namesOf method) av with
         | some m => if obsEq m impl then "OK" else s!"DIVERGE model={showObs m}"
         | none =>
           match parseName (namesOf method) with
